@@ -177,6 +177,38 @@ Definition painted (l : list action) : list (N * str) :=
                      | AStartLeaf _ p _ => [(2, p)]
                      | _ => [] end) l.
 
+
+(** * The concrete filters used by the correspondence check: exact names, or
+    regular expressions that are plain literals (substring search).  The
+    theorems treat the filter as an arbitrary predicate. *)
+Fixpoint prefixb (p s : str) : bool :=
+  match p, s with
+  | [], _ => true
+  | x :: p', y :: s' => (x =? y) && prefixb p' s'
+  | _ :: _, [] => false
+  end.
+Fixpoint contains (p s : str) : bool :=
+  prefixb p s || match s with [] => false | _ :: tl => contains p tl end.
+
+Definition filter_match (exact : bool) (pat path : str) : bool :=
+  if exact then str_eqb pat path else contains pat path.
+(** [FilterSet::is_match] for a set of positive and a set of skip filters. *)
+Definition is_match (exact : bool) (pos skip : list str) (path : str) : bool :=
+  negb (existsb (fun s => filter_match exact s path) skip)
+  && (is_nil pos || existsb (fun s => filter_match exact s path) pos).
+
+(** First evaluation of each argument list: [from_benches] asks every entry for
+    its argument names, which initialises the entry's [BenchArgs] [OnceLock]
+    the first time; later [bench_runner()] calls find it initialised. *)
+Definition args_owner (e : any_entry) : list N :=
+  match entry_runner e with RArgs o _ => [o] | RPlain => [] end.
+Fixpoint dedup (l : list N) (seen : list N) : list N :=
+  match l with
+  | [] => []
+  | x :: tl => if existsb (N.eqb x) seen then dedup tl seen else x :: dedup tl (x :: seen)
+  end.
+Definition args_evaluations (es : list any_entry) : list N := dedup (flat_map args_owner es) [].
+
 (** * Boolean specifications (C14), evaluated on the implementation's outputs. *)
 
 Fixpoint list_eqb {A} (eqb : A -> A -> bool) (a b : list A) : bool :=
